@@ -17,7 +17,7 @@ def run(ctx):
     ctx.clause = ("in the ABIXML reader and the tools' ABIXML read paths: results of nullable producers are checked "
                   "before use, constant subscripts on input-filled vectors are size-guarded, and no assertion / abort "
                   "depends on a value taken from the document without a dominating check")
-    ctx.rules = ["R-NULLABLE", "R-IDX", "R-INASSERT"]
+    ctx.rules = ["R-NULLABLE", "R-IDX", "R-INASSERT", "R-VFNCLASS"]
     with open(os.path.join(TABLES, "c33_tables.json")) as fh:
         T = json.load(fh)
     P = ctx.program(None)
@@ -43,6 +43,8 @@ def run(ctx):
     ns, ni = inassert_rule.run(ctx, P, rfuncs, "C33", producers=prod, accessors=acc, undecided=T["undecided"])
     ctx.floor("R-INASSERT", "assertion sites in the reader", ns, 100)
     ctx.floor("R-INASSERT", "input-derived assertion atoms in the reader", ni, 20)
+    from rules import vfn_rule
+    vfn_rule.check(ctx, P)
     for fn, why in T["not_producers"].items():
         ctx.note("not in the nullable-producer table: %s - %s" % (fn, why))
     ctx.assume("general memory safety of the reader beyond these three fault classes is not decided")
